@@ -33,6 +33,13 @@ CLAIMED = {
             "Trusted: CrossHair + z3; the representation invariant is checked to be inductive by two of the obligations; "
             "logging statements are compiled out (vlib.nolog).",
             "DESIGN.md §1 C04"),
+    "C05": ("CrossHair/z3-driven exhaustive exploration of all event histories up to depth 3/4 (forward, inject, drop, "
+            "PacketAck, timer; direction and acknowledged id symbolic) through the real handle_proxied_packet / ProxiedCircuit / "
+            "InjectionTracker, checked step by step against an abstract reference model of ids and acknowledgements",
+            "Bounded model checking of histories: every event sequence within the depth bound is explored (solver-enumerated "
+            "selectors) and compared with the reference model after each step.",
+            "Trusted: CrossHair + z3; snapshot serializer; deserializer stub; harness clock; endpoints number packets 1,2,3...",
+            "DESIGN.md §1 C05"),
     "C07": ("CrossHair/z3 symbolic execution of the real handle_proxied_packet / AddonManager hook dispatch / ProxiedCircuit "
             "ownership guards with a symbolic fault schedule (behaviour per addon hook and subscriber, direction, reliable bit) "
             "and all operation sequences up to length 4, compared with a reference ownership model",
